@@ -358,7 +358,7 @@ int main()
         cv->wrap(x);
         o << vs_hex(x) << "\n";
       }
-    } else if (cmd == "SUM") {
+    } else if (cmd == "SUM" || cmd == "SUMM") {
       // a variable that is a sum of n components given in CONFIG order: SUM n (keyword period coeff exp wrapAround)*n x1 x2 xw
       // -> colvar::init's decision (f_cv_periodic, period, wrap_center) and dist2 / lgrad / rgrad (x1,x2), wrap(xw)
       int n = ni();
@@ -382,8 +382,20 @@ int main()
         if (per_kw || (kw == "distanceZ" && P != 0.0)) { snprintf(buf, sizeof(buf), "    wrapAround %.17g\n", wc); body += buf; }
         conf += "  " + kw + " {\n" + body + "  }\n";
       }
-      colvar *cv = get_cv("sum " + conf, conf);
+      colvar *cv = get_cv((cmd == "SUMM") ? ("summ " + cvm::to_str(ncv)) : ("sum " + conf), conf);     // SUMM: a fresh object (it is modified)
       if (!cv) { o << "noconfig\n"; continue; }
+      if (cmd == "SUMM") {
+        // run-time modification (modifycvcs) of ONE component, given by its index in creation order: new period (0 = unchanged), new coefficient
+        int jc = ni(); double Pn = nf(), cn = nf();
+        std::vector<std::string> confs(cv->cvcs.size(), std::string(""));
+        char mb[256];
+        if (Pn != 0.0) snprintf(mb, sizeof(mb), "period %.17g\ncomponentCoeff %.17g\n", Pn, cn);
+        else snprintf(mb, sizeof(mb), "componentCoeff %.17g\n", cn);
+        if (jc >= 0 && jc < int(confs.size())) confs[jc] = mb;
+        cvm::clear_error();
+        cv->update_cvc_config(confs);
+        cvm::clear_error();
+      }
       colvarvalue x1(nf()), x2(nf()), xw(nf());
       bool per = cv->is_enabled(colvardeps::f_cv_periodic);
       cv->wrap(xw);
